@@ -301,7 +301,50 @@ inline void run_laws(JW& j, const Step& st, Document& doc, Dumper& d, const std:
                 lr.run("query:" + q, e);
             }
     }
+    // ---- type_t::subst (used by expr_dot for P.x): substituting a template parameter in the type of a template variable
+    size_t n_type_subst = 0;
+    auto type_laws = [&](template_t& t) {
+        frame_t params = t.parameters;
+        if (params == frame_t())
+            return;
+        for (uint32_t qi = 0; qi < params.get_size(); ++qi) {
+            symbol_t q = params[qi];
+            const std::string needle = "(IDENTIFIER " + d.sym_id(q) + ")";
+            expression_t r = expression_t::create_constant(7);
+            const std::string rd = d.expr_str(r);
+            for (uint32_t vi = 0; vi < t.frame.get_size(); ++vi) {
+                symbol_t v = t.frame[vi];
+                type_t ty = v.get_type();
+                kind_t k = ty.get_kind();
+                if (k == FUNCTION || k == FUNCTION_EXTERNAL || k == LOCATION || k == BRANCHPOINT || ty.is_location())
+                    continue;
+                const std::string before = d.type_str(ty);
+                if (before.find(needle) == std::string::npos && (qi + vi) % 3 != 0)
+                    continue;   // a sample of the types that do not mention the parameter is enough
+                ++n_type_subst;
+                type_t sub = ty.subst(q, r);
+                std::string expected = before;
+                size_t pos = 0;
+                while ((pos = expected.find(needle, pos)) != std::string::npos) {
+                    expected.replace(pos, needle.size(), rd);
+                    pos += rd.size();
+                }
+                const std::string where = "T(" + t.uid.get_name() + ")." + v.get_name() + "[" + q.get_name() + ":=7]";
+                if (d.type_str(sub) != expected)
+                    lr.failures.push_back({where, "type-subst-exact", "type " + before + " becomes " + d.type_str(sub) + ", expected " + expected, "(TYPE)"});
+                if (d.type_str(ty) != before)
+                    lr.failures.push_back({where, "type-subst-pure", "subst changed the type it was applied to", "(TYPE)"});
+                type_t self = ty.subst(q, expression_t::create_identifier(q));
+                if (d.type_str(self) != before)
+                    lr.failures.push_back({where, "type-subst-identity", "substituting the parameter by itself gives " + d.type_str(self), "(TYPE)"});
+            }
+        }
+    };
+    if (st.get("law_skip_doc", "0") != "1")
+        for (auto& t : doc.get_templates())
+            type_laws(t);
     j.k("laws").o();
+    j.k("type_substitutions").num((long long)n_type_subst);
     j.k("expressions").num((long long)lr.n_exprs);
     j.k("query_expressions").num((long long)qparsed);
     j.k("nodes").num((long long)lr.n_nodes);
